@@ -36,10 +36,17 @@ def excname(e: BaseException) -> str:
 
 
 class SleepRec:
-    def __init__(self):
+    """stands in for `Reduino.Actuators.sleep`: records the requested milliseconds instead of waiting.  It goes through the REAL
+    `Reduino.Utils.sleep` (with a no-op `sleep_func`), so whatever that function refuses (negative durations) is refused here too —
+    a class that leaves its own validation to it behaves under the harness as it does in production."""
+
+    def __init__(self, real=None):
         self.calls = []
+        self.real = real
 
     def __call__(self, *a, **k):
+        if self.real is not None:
+            self.real(*a, sleep_func=lambda seconds: None)
         self.calls.append(a[0] if a else None)
 
     def take(self):
@@ -180,7 +187,7 @@ def load_actuators():
     import common
     common.fresh_import()
     act = importlib.import_module("Reduino.Actuators")
-    rec = SleepRec()
+    rec = SleepRec(getattr(act, "sleep", None))
     act.sleep = rec
     return {"Led": act.Led, "RGBLed": act.RGBLed, "Servo": act.Servo, "DCMotor": act.DCMotor, "rec": rec, "pkg": act}
 
